@@ -31,7 +31,7 @@ RULE = (
 )
 ASSUMPTIONS = [
     "an exception from generate/simplify, or a WARNING logged during simplify that says the result is incomplete ('exceeded maximum iteration limit', 'not balanced'), counts as 'reports failure' and ends the case as a pass (counted; the fraction is in the evidence); warnings about a result that is still offered as valid (symbolic instead of numeric affine matrix, which start value was kept) exempt nothing",
-    "absence of additional solutions is checked locally: the Jacobian of the simplified residual w.r.t. the remaining derivative/algebraic unknowns has full column rank at s*",
+    "absence of additional solutions is checked locally: the Jacobian of the simplified residual w.r.t. the remaining derivative/algebraic unknowns has full column rank at s* (not applied to the one gadget whose model as generated is a constraint between two states, i.e. rank deficient itself; there s* is the solution of the differentiated constraint)",
     "parameters and constants are fixed at their declared values, as the statement says",
     "reduce_affine_expression is only drawn for models affine in states/derivatives/algebraics/inputs without time; all constant factors are finite and non-zero (the stated preconditions)",
 ]
@@ -270,6 +270,28 @@ def solved_model(draw):
                 ["eq", ["var", mid], ["bin", "+", ["var", "yq"], lit(c)]],
                 ["eq", ["der", ["var", "xs_elim"]], lit(d)]]
         kinds.append("eliminable_state_chain")
+    # two eliminable DIFFERENTIATED variables in a chain:  xu_elim = k*yr;  xv_elim = m*xu_elim;
+    # der(xu_elim) + der(xv_elim) = d.  Before the elimination this is a constraint between two states (the
+    # residual alone does not determine der(xu_elim) and der(xv_elim): the rank clause is then not applied, see
+    # run_case); the values below are those of the differentiated constraint, so that they satisfy both the
+    # original and the correctly simplified residual ((k + m*k) * der(yr) = d).  (A variant that is regular
+    # before the elimination needs a two-term right-hand side, for which pymoca's own substitution loop logs
+    # "exceeded maximum iteration limit" - a failure report - also on the unchanged tree.)
+    chain2 = draw(st.integers(0, 4)) == 0
+    if chain2:
+        k = draw(st.sampled_from([2.0, 3.0, 0.5]))
+        m = draw(st.sampled_from([2.0, 0.5]))
+        d = draw(st.sampled_from([9.0, 2.5]))
+        xv = draw(st.sampled_from([1.5, 3.0]))
+        vars_ += [D.var("xu_elim"), D.var("xv_elim"), D.var("yr")]
+        vals["xu_elim"], vals["xv_elim"], vals["yr"] = xv, m * xv, xv / k
+        da = d / (1.0 + m)
+        ders["xu_elim"], ders["xv_elim"], ders["yr"] = da, m * da, da / k
+        eqs += [["eq", ["var", "xu_elim"], ["bin", "*", lit(k), ["var", "yr"]]],
+                ["eq", ["var", "xv_elim"], ["bin", "*", lit(m), ["var", "xu_elim"]]],
+                ["eq", ["bin", "+", ["der", ["var", "xu_elim"]], ["der", ["var", "xv_elim"]]], lit(d)]]
+        kinds.append("eliminable_state_chain")
+        kinds.append("eliminable_two_states")
     shuffled = draw(st.permutations(list(range(len(eqs)))))
     ieqs = [["eq", ["var", s], lit(vals[s])] for s in states if draw(st.booleans())]
     # a parameter and a constant that occur in initial equations only (never in the DAE equations)
@@ -419,6 +441,20 @@ def run_case(ctx, case, which):
     get = sol_lookup(case)
     names0 = {c: [v.symbol.name() for v in getattr(model, c)] for c in ("states", "alg_states", "constants", "parameters", "inputs")}
     bal0 = balance(model)
+    # is the model as generated regular at s* (its residual determines the derivative/algebraic unknowns)?
+    regular0 = True
+    if "eliminable_two_states" in case.get("kinds", ()):
+        try:
+            f0 = model.dae_residual_function
+            args0 = build_args(model, get, {"c0": case["sol"]["c0"], "c1": case["sol"]["c1"]})
+            ins0 = [ca.MX.sym("j%d" % i, *f0.size_in(i)) for i in range(f0.n_in())]
+            J0 = ca.Function("J0", ins0, [ca.jacobian(f0.call(ins0)[0], ca.vertcat(ins0[2], ins0[3]))])
+            Jv0 = np.array(J0.call(args0)[0], dtype=float)
+            regular0 = bool(Jv0.size) and np.linalg.matrix_rank(Jv0, tol=1e-9) == Jv0.shape[1]
+        except Exception as e:  # noqa: BLE001
+            if pymoca_frame(e) == "?":
+                raise
+            regular0 = False
     with venv.LogCapture() as log:
         try:
             model.simplify(opts)
@@ -471,7 +507,12 @@ def run_case(ctx, case, which):
         labels.append("eliminated")
     if info_warned:
         labels.append("informational_warning")
+    if not regular0:
+        labels.append("original_not_regular")
     if which == "C15":
+        if not regular0:
+            # the statement speaks of models whose equations determine their unknowns uniquely
+            return dict(nontrivial=False, labels=labels)
         if bal1 != bal0:
             raise Violation("balance_changed", "unknowns-equations was %d, is %d after simplify%s" % (bal0, bal1, tail))
         return dict(nontrivial=removed > 0 or len(res) < n_elems_names(names0), labels=labels, sample={"text": text, "options": {k: v for k, v in opts.items() if v}})
@@ -515,7 +556,7 @@ def run_case(ctx, case, which):
         J = ca.Function("J", ins, [ca.jacobian(out, ca.vertcat(ins[2], ins[3]))])
         Jv = np.array(J.call(args)[0], dtype=float)
         rank = np.linalg.matrix_rank(Jv, tol=1e-9) if Jv.size else 0
-        if rank < nunk:
+        if rank < nunk and regular0:
             raise Violation("solutions_added:rank_deficient", "Jacobian rank %d < %d remaining unknowns%s" % (rank, nunk, tail))
     return dict(nontrivial=n_on >= 2 and removed > 0, labels=labels, sample={"text": text, "options": {k: v for k, v in opts.items() if v}})
 
